@@ -1841,6 +1841,8 @@ class Extractor:
         self.F = facts
         self.lib = facts.lib
         self.NF = NF(facts)
+        del _DECISION_CE[:]
+        _DECISION_CE.append(CallExpander(self.F, general_matches=True))      # (accessor methods met in branch conditions, see `decision`)
         self._buffers = {}       # local id -> name: text buffers that are filled piecewise and written to the sink as a whole
         self._wclos = {}         # local id -> (closure node, environment): closures that write to a sink they captured
         self._wclos_ids = set()
@@ -3778,7 +3780,40 @@ def decision(cond, branch):
             return ("some", c[2]), not branch
     if isinstance(c, tuple) and c[0] == "call" and c[2] and str(c[1]).rsplit("::", 1)[-1] in ("is_some", "is_none"):
         return ("some", c[2][0]), branch == str(c[1]).endswith("is_some")
+    # an accessor of the crate that says which variant a member of its receiver is (`fn is_attribute(&self) -> bool { self.kind ==
+    # Kind::Attribute }`) and the test written out (`if let Kind::Attribute = self.kind`, `self.kind == Kind::Attribute`) are one decision
+    if isinstance(c, tuple) and c[0] == "call" and len(c[2]) == 1 and _DECISION_CE and isinstance(c[1], str) and "::" in c[1]:
+        ce = _DECISION_CE[-1]
+        summ = ce.summary(c[1]) if c[1] not in ce.keep else None
+        if summ is not None and len(summ[0]) == 1:
+            body = ce.expand(c)        # (an accessor that hands on to an accessor of the member is followed)
+            vt = _variant_test(body)
+            if vt is not None and isinstance(vt[0], tuple) and vt[0][0] == "field":
+                return ("cond", ("islet", vt[1], vt[0])), branch
+    vt = _variant_test(c)
+    if vt is not None:
+        return ("cond", ("islet", vt[1], vt[0])), branch
     return ("cond", c), branch
+
+
+_DECISION_CE = []      # the CallExpander of the extractor at work (set by it), for accessor methods met in conditions
+
+
+def _variant_test(c):
+    """(value, variant path) when the condition says `value` is that unit variant: `value == Enum::V`, `if let Enum::V = value`,
+    `matches!(value, Enum::V)`"""
+    if not isinstance(c, tuple) or not c:
+        return None
+    if c[0] == "binop" and c[1] == "Eq":
+        for a_, b_ in ((c[2], c[3]), (c[3], c[2])):
+            if isinstance(b_, tuple) and b_ and b_[0] == "const" and _variant_like(b_[1]) and not str(b_[1]).endswith("::None"):
+                return a_, str(b_[1])
+    if c[0] == "islet" and isinstance(c[1], str) and "(" not in c[1] and "{" not in c[1] and "|" not in c[1] and "::" in c[1] and c[1].rsplit("::", 1)[-1][:1].isupper() \
+            and c[1].rsplit("::", 1)[-1] != "None":
+        return c[2], c[1].strip()
+    if c[0] == "match" and len(c) > 2 and len(c[2]) == 2 and c[2][0][1] == ("lit", True) and c[2][1][1] == ("lit", False) and "|" not in str(c[2][0][0]) and "(" not in str(c[2][0][0]):
+        return c[1], str(c[2][0][0]).strip()
+    return None
 
 
 def ctx_feasible(ctx):
@@ -3963,8 +3998,10 @@ def _canon_hole(p, CE, limit):
     if k == "match" and 2 <= len(e[2]) <= 6:
         out = []
         failed = ()
-        for lab, val in e[2]:
+        for li_, (lab, val) in enumerate(e[2]):
             wild = lab.rsplit("::", 1)[-1] == "_" or (lab.isidentifier() and lab.islower())
+            if li_ == len(e[2]) - 1 and li_ > 0 and "(" not in lab and "{" not in lab:
+                wild = True      # a `match` is exhaustive: its last arm is taken whenever the others are not
             here = failed if wild else failed + (("alt", ("islet", lab, e[1]), True),)
             for sp, sc in _canon_hole(("hole", val, tr, ty), CE, limit):
                 out.append((sp, here + sc))
